@@ -4,7 +4,8 @@ TLC: MC_Memo -- all interleavings of concurrent two-step calls satisfy the seque
 shared-scratch mutant is refuted.  Real code: one set of interpreters created once and shared; (1) reference results from a
 fresh interpreter per call, (2) two sequential passes in opposite orders on the shared set, (3) N threads hammering the same
 shared set in seeded pseudo-random orders; the child's stdout/stderr are captured.  TLC validates the merged history
-against Memo (Val_Calls, VerdictC14).  Send + Sync is asserted at compile time inside the harness (threads mode)."""
+against Memo (Val_Calls, VerdictC14).  Send + Sync is asserted at compile time in the t2n-threads binary, which only this
+check builds: a tree whose interpreters are not Send + Sync makes that build fail with E0277, reported as a violation."""
 import json
 import os
 import vlib
@@ -14,6 +15,13 @@ from checks import streams
 def exec_validate_threads(ctx, req, nthreads):
     """runs the call set on shared interpreters (fresh reference, sequential passes, threads), validates the history against Memo"""
     obs = ctx.path("obs.ndjson")
+    msg = vlib.build_threads_bin()
+    if msg is not None:
+        first = msg.split("\n")[0]
+        ctx.failures.append(dict(verdict="interpreter-not-send-sync", cls="interpreter-not-send-sync",
+                                 sig=dict(verdict="interpreter-not-send-sync", lang="", input="compile-time assertion: all eight interpreter types are Send + Sync",
+                                          output=first), compiler_message=msg))
+        return None
     h = vlib.harness(ctx, "threads", req, obs, args=[nthreads, ctx.seed])
     if h["rc"] != 0:
         ctx.failures.append(dict(verdict="harness-child-died", cls="harness-child-died",
@@ -124,7 +132,7 @@ def run(ctx):
                 "text API and word-by-word apply); history = fresh-interpreter reference + 2 sequential passes + %d threads x %d calls on one "
                 "shared set of interpreters; non-trivial/distinct = distinct calls" % (nthreads, len(reqs)))
     ctx.assumptions += ["thread schedules are sampled by the OS scheduler, not enumerated; MC_Memo enumerates all interleavings of the model",
-                        "Send + Sync of all eight interpreter types is asserted at compile time in the harness"]
+                        "Send + Sync of all eight interpreter types is asserted at compile time in the t2n-threads binary (a failure is a violation)"]
     return vlib.finish(ctx)
 
 
